@@ -53,6 +53,25 @@ pub fn torsion_g1(k: usize) -> bls12_381_plus::G1Projective {
     panic!("no torsion point found");
 }
 
+pub const GROUP_ORDER_HEX: &str = "73eda753299d7d483339d80809a1d80553bda402fffe5bfeffffffff00000001";
+
+/// the 32-octet big-endian string of (value + r): another octet string for the same residue; None when it
+/// does not fit 256 bits
+pub fn plus_r(b: &[u8]) -> Option<Vec<u8>> {
+    let r = hex::decode(GROUP_ORDER_HEX).unwrap();
+    if b.len() != 32 {
+        return None;
+    }
+    let mut out = vec![0u8; 32];
+    let mut carry = 0u16;
+    for i in (0..32).rev() {
+        let t = b[i] as u16 + r[i] as u16 + carry;
+        out[i] = t as u8;
+        carry = t >> 8;
+    }
+    if carry == 0 { Some(out) } else { None }
+}
+
 pub fn hx(b: &[u8]) -> String {
     if b.len() <= 96 {
         hex::encode(b)
